@@ -272,3 +272,19 @@ def to_real(mod, term):
 
 def comp_to_real(i):
     return ... if i == ELLIPSIS else f"k{i}"
+
+
+def from_real(M, sel, names):
+    """real Selection object -> ground z3 Sel term; `names` maps string components to ints (extended on demand)."""
+    cls = type(sel).__name__
+    S = M.Sel
+    if cls in ("AllSel", "NoneSel", "LeafSel"):
+        return getattr(S, cls)
+    if cls == "ComplementSel":
+        return S.ComplementSel(from_real(M, sel.s, names))
+    if cls == "StaticSel":
+        a = ELLIPSIS if sel.addr is ... else names.setdefault(sel.addr, len(names))
+        return S.StaticSel(from_real(M, sel.s, names), z3.IntVal(a))
+    if cls in ("AndSel", "OrSel"):
+        return getattr(S, cls)(from_real(M, sel.s1, names), from_real(M, sel.s2, names))
+    raise CannotEncode(f"selection class {cls}")
